@@ -7,6 +7,16 @@ CHECKS = {
     technique="TLA+ spec Negotiation.tla: TLC exhaustive design check + TLC trace validation of real negotiations (instrumented stream features, scripted peer)",
     text="TLC checks the C01 invariants (eligibility, advertised-or-forced, at most once per stream, voluntary first, fresh header after restart, monotone bits, ready rule, receiver advertises exactly / refuses without running) on every reachable state of Negotiation.tla within small bounds; thousands of scenarios of the REAL negotiator (both roles, arbitrary feature masks, repeated/unknown/out-of-order advertisements and selections, faults, tee) are recorded and every trace must be a behaviour of that specification with all invariants evaluated at every step.",
     note="Trusted: TLC; the instrumented StreamFeature callbacks report the session state truthfully; feature kinds are drawn from the pool in NegPool.tla (<=4 per configuration); a feature that sets Ready is always mandatory."),
+ "C05": dict(
+    level="model_checking", design_ref="4/C05",
+    technique="TLA+ specs Transmit.tla (reference function Complete, TLC-emitted vectors) and Output.tla (output lock, wire log): TLC design check + systematic schedule exploration of the real session with TLC trace validation",
+    text="Sequential part: TLC computes from Transmit.tla what every element shape x argument form must look like on the wire (id / namespace / from completion, supplied start element outermost, nothing else altered, exactly one complete element flushed when the call returns) and all 3888 vectors are replayed through the real session. Concurrent part: TLC checks C05_Contiguous / C05_WritesUnderLock / C05_NoStrayWrites on every state of Output.tla; the real session is driven through every gate-level interleaving (pre-emption bounded) of concurrent transmit calls over all entry points and handler replies, with payloads spanning several transport writes, and every recorded schedule must be a behaviour of the spec; the re-parsed wire must show one complete, unmixed element per successful call.",
+    note="Trusted: TLC; scheduler gate granularity (verifYield hooks, transport reads/writes, Go blocking primitives); elements are compared after re-parsing (attribute order, quoting, prefixes not compared). Two open known findings (Encode of a WriterTo value is not flushed; a foreign-namespace element named like a stanza is re-qualified)."),
+ "C10": dict(
+    level="model_checking", design_ref="4/C10",
+    technique="TLA+ spec Output.tla (closers, senders, Serve shutdown, error path, peer script): TLC exhaustive design check + systematic schedule exploration of the real session under a single-runner scheduler with TLC trace validation",
+    text="TLC checks on every reachable state of Output.tla that at most one closing tag is written, nothing follows it, transmit calls that find the stream closed are refused with the output-closed error without writing, and Serve leaves both directions closed and returns nil / the stream error / another error according to what the peer did. The REAL session is then run through every gate-level interleaving (pre-emption bounded depth-first search) of Close calls, transmit calls, handler replies, handler errors, peer close and peer stream errors; every recorded schedule (hooks, transport writes attributed to goroutines, returns, final re-parsed wire, state bits, a read after Serve) is validated by TLC as a behaviour of the specification with all invariants evaluated at every step.",
+    note="Trusted: TLC; gate granularity of the scheduler; runtime.Stack wait states for blocked-goroutine detection. The close-deadline clause is exercised by the thorough tier only as an untimed scenario; whether the stream error element itself reaches the wire before the closing tag is not required (the pinned tests expect it not to)."),
 }
 
 NOT_YET = "check not built yet (construction in progress; see DESIGN.md section 7 build order)"
